@@ -51,6 +51,7 @@ Unlink == /\ E.ev = "unlink"
 Intact(final, exit) == \A i \in 1..Len(hist) : hist[i] = Old \/ (exit = 0 /\ hist[i] = final)
 Why(e) ==
   IF e.crash THEN e.tool \o " crashed"
+  ELSE IF ~e.all_same THEN e.tool \o ": after the run a file of the directory no longer holds the schema (or, if unparsable, the bytes) it held before"
   ELSE IF e.expectfail /\ e.exit = 0 THEN e.tool \o ": the run was made to fail (bad input or an injected fault) but the exit status is 0"
   ELSE IF e.exit # 0 /\ ~e.target_same THEN e.tool \o ": the run failed and the target file no longer has its previous contents"
   ELSE IF (e.exit # 0) # e.printed THEN e.tool \o ": exit status " \o ToString(e.exit) \o " but " \o (IF e.printed THEN "an" ELSE "no") \o " error was printed"
